@@ -2,8 +2,9 @@
   C11  The passive data-port pool neither loses nor duplicates ports.
 
   `Model.PortPool.step` transcribes `Server._start_passive_server`, the 421 exit of `pasv`/`epsv` and the
-  give-back in the dispatcher's `finally`; the two class facts the `except OSError` clause depends on come
-  from the translator (`Generated.noAvailablePortIsOSError`, `Generated.cancelledIsOSError`).
+  give-back in the dispatcher's `finally`; the two class facts the `except OSError` clause depends on and the
+  presence of a clause for the cancellation come from the translator (`Generated.noAvailablePortIsOSError`,
+  `Generated.cancelledIsOSError`, `Generated.passiveCancelReturnsPort`).
 
   Reading of the property on the model, for a server configured with `data_ports = ports`:
       Conserved ports st  :=  ∀ p, (#p in the queue) + (#live sessions holding p) = (#p in ports)
@@ -12,8 +13,10 @@
   What is proved
     * `pool_accounting`  (full strength, all histories): queue + held + lost = configured, where `lost`
       counts exactly the sessions ended while suspended in `await asyncio.start_server`;
-      hence `no_duplication` (full strength) and `pool_conservation_partial`.
-    * the conservation itself is FALSE on the pinned tree: `port_lost_on_cancel` (finding F8).
+      hence `no_duplication` (full strength).
+    * `pool_conservation` and `quiescent_pool_full` at FULL strength, for all histories — cancellation inside
+      the awaited start-up included — resting on `fact_cancel_caught` (finding F8 repaired in /repo eb5160b).
+      `port_lost_without_cancel_clause` keeps the negative witness as a statement about the old shape.
     * the per-exit theorems `busy_skipped_not_lost`, `exhaustion_421`, `viewed_exit_returns_port`,
       `other_oserror_returns_port`, `listener_port_returned`, `quiescent_pool_full_partial`.
     * 421 can be answered although a port of the pool was never tried (`premature_421`, witness);
@@ -33,8 +36,14 @@ def Conserved (ports : List Port) (st : State) : Prop :=
 /-- `NoAvailablePort` is an `OSError`: the "all ports viewed" exit goes through `except OSError` -/
 theorem fact_noAvailablePort_is_OSError : facts.naoIsOSError = true := by decide
 
-/-- `CancelledError` is not an `OSError`: nothing catches a cancellation inside the start-up -/
+/-- `CancelledError` is not an `OSError` … -/
 theorem fact_cancelled_not_OSError : facts.cancelIsOSError = false := by decide
+
+/-- … but the try around `start_server` has a clause of its own for it, which puts the port back -/
+theorem fact_cancel_caught : facts.cancelCaught = true := by decide
+
+/-- the tree as it was pinned: no such clause -/
+def oldFacts : Facts := ⟨true, false, false⟩
 
 /-! ### accounting, for all histories -/
 
@@ -45,8 +54,10 @@ theorem pool_accounting (ports : List Port) (evs : List Event) (p : Port) :
       + lostIn facts (initState ports) p evs = ports.count p := by
   rw [run_accounting fact_noAvailablePort_is_OSError, init_accounting]
 
-example : inPool (run facts (initState [5000, 5001]) [.connect, .pasv 0, .finish 0]) 5000 = 0
-    ∧ lostIn facts (initState [5000, 5001]) 5000 [.connect, .pasv 0, .finish 0] = 1 := by decide
+example : inPool (run oldFacts (initState [5000, 5001]) [.connect, .pasv 0, .finish 0]) 5000 = 0
+    ∧ lostIn oldFacts (initState [5000, 5001]) 5000 [.connect, .pasv 0, .finish 0] = 1
+    ∧ inPool (run facts (initState [5000, 5001]) [.connect, .pasv 0, .finish 0]) 5000 = 1
+    ∧ lostIn facts (initState [5000, 5001]) 5000 [.connect, .pasv 0, .finish 0] = 0 := by decide
 
 /-- **no_duplication** (full strength): after any history no port is in the queue or held more often than it
     was configured; in particular a port configured once is never both available and bound, nor bound twice. -/
@@ -64,52 +75,54 @@ theorem at_most_one_holder (ports : List Port) (hnd : ports.Nodup) (evs : List E
 example : held (run facts (initState [5000, 5001])
     [.connect, .connect, .pasv 0, .started 0 .ok, .pasv 1, .started 1 .ok]) 5001 = 1 := by decide
 
-/-- **pool_conservation is false on the pinned tree** (finding F8): a session that ends while its
-    PASV/EPSV handler is suspended in `asyncio.start_server` takes the port with it. -/
-theorem port_lost_on_cancel :
-    ¬ Conserved [5000, 5001] (run facts (initState [5000, 5001]) [.connect, .pasv 0, .finish 0]) := by
+/-- **pool_conservation** (full strength): after EVERY prefix of EVERY history — sessions ended at any moment,
+    while suspended in `start_server` included — pool ⊎ held is exactly the configured multiset. -/
+theorem pool_conservation (ports : List Port) (evs : List Event) (k : Nat) :
+    Conserved ports (run facts (initState ports) (evs.take k)) := by
+  intro p
+  have h1 := pool_accounting ports (evs.take k) p
+  have h2 := lostIn_zero_of_cancelCaught fact_cancel_caught (initState ports) (evs.take k) p
+  omega
+
+/-- the cancelled start-up gives its port back with the priority it had -/
+theorem cancel_in_startup_returns_port (st : State) (i : Nat) (vs : List Port) (prio : Nat) (p : Port)
+    (h : st.sessions[i]? = some (.starting vs prio p)) :
+    (step facts st (.finish i)).1 = setPhase st i .gone (put (prio, p) st.pool) := by
+  simp only [step, h, fact_cancel_caught, if_true]
+  rfl
+
+/-- the witness history of finding F8 on the tree as it is now: the port is back -/
+theorem port_back_after_cancel :
+    run facts (initState [5000, 5001]) [.connect, .pasv 0, .finish 0]
+      = { pool := [(0, 5000), (0, 5001)], sessions := [.gone] } := by decide
+
+/-- **port_lost_without_cancel_clause** (what finding F8 was): on the pinned shape a session that ends while
+    its PASV/EPSV handler is suspended in `asyncio.start_server` takes the port with it. -/
+theorem port_lost_without_cancel_clause :
+    run oldFacts (initState [5000, 5001]) [.connect, .pasv 0, .finish 0]
+      = { pool := [(0, 5001)], sessions := [.gone] } ∧
+    ¬ Conserved [5000, 5001] (run oldFacts (initState [5000, 5001]) [.connect, .pasv 0, .finish 0]) := by
+  refine ⟨by decide, ?_⟩
   intro h
   have := h 5000
   revert this
   decide
 
-/-- the state after the witness history, written out: the session is gone, 5000 is nowhere -/
-theorem port_lost_on_cancel_state :
-    run facts (initState [5000, 5001]) [.connect, .pasv 0, .finish 0]
-      = { pool := [(0, 5001)], sessions := [.gone] } := by decide
-
-/-- the loss, in general: ending a session that is suspended in the start-up for `p` removes exactly one `p`
-    from pool ⊎ held and touches no other port -/
-theorem cancel_in_startup_loses_exactly_that_port (st : State) (i : Nat) (vs : List Port) (prio : Nat) (p : Port)
+/-- the loss on the old shape, in general: exactly that port, once -/
+theorem cancel_in_startup_lost_exactly_that_port (st : State) (i : Nat) (vs : List Port) (prio : Nat) (p : Port)
     (h : st.sessions[i]? = some (.starting vs prio p)) (q : Port) :
-    inPool (step facts st (.finish i)).1 q + held (step facts st (.finish i)).1 q + (if p = q then 1 else 0)
+    inPool (step oldFacts st (.finish i)).1 q + held (step oldFacts st (.finish i)).1 q + (if p = q then 1 else 0)
       = inPool st q + held st q := by
-  have := step_accounting fact_noAvailablePort_is_OSError st (.finish i) q
-  simp only [lossOf, h, fact_cancelled_not_OSError, one] at this
-  simpa using this
+  have := step_accounting (f := oldFacts) rfl st (.finish i) q
+  simp only [lossOf, h, one] at this
+  simpa [oldFacts, Facts.cancelCaught] using this
 
-/-- **pool_conservation_partial**: along every history that never ends a session while it is suspended in
-    `start_server`, conservation holds after every prefix (= at every step). -/
-theorem pool_conservation_partial (ports : List Port) (evs : List Event)
-    (h : NoCancelInStartup facts (initState ports) evs) (k : Nat) :
-    Conserved ports (run facts (initState ports) (evs.take k)) := by
+/-- conservation holds for ANY facts under which the cancellation is caught (by either clause) -/
+theorem pool_conservation_of_cancelCaught (f : Facts) (hn : f.naoIsOSError = true) (hc : f.cancelCaught = true)
+    (ports : List Port) (evs : List Event) : Conserved ports (run f (initState ports) evs) := by
   intro p
-  have h1 := pool_accounting ports (evs.take k) p
-  have h2 := lostIn_zero_of_noCancel (noCancel_take h k) p
-  omega
-
-/-- the hypothesis is satisfiable on a history with a busy port, an exhaustion and two orderly ends -/
-example : NoCancelInStartup facts (initState [5000, 5001])
-    [.connect, .connect, .pasv 0, .started 0 .addrInUse, .started 0 .ok, .pasv 1, .started 1 .addrInUse,
-     .finish 0, .finish 1] := by decide
-
-/-- what a repair would have to achieve: if the cancellation were caught like an `OSError` (it is not),
-    conservation would hold along every history -/
-theorem pool_conservation_if_cancel_were_caught (ports : List Port) (evs : List Event) :
-    Conserved ports (run ⟨true, true⟩ (initState ports) evs) := by
-  intro p
-  have h1 := run_accounting (f := ⟨true, true⟩) rfl (initState ports) evs p
-  have h2 := lostIn_zero_of_cancelIsOSError (f := ⟨true, true⟩) rfl (initState ports) evs p
+  have h1 := run_accounting hn (initState ports) evs p
+  have h2 := lostIn_zero_of_cancelCaught hc (initState ports) evs p
   have h3 := init_accounting ports p
   omega
 
@@ -173,7 +186,7 @@ theorem noAvailablePort_pool_whole (vs : List Port) (pool pool' : List Item)
 /-- were `NoAvailablePort` not an `OSError`, the viewed exit would drop the entry (counterfactual witness,
     the mutation the translator guards against) -/
 theorem viewed_exit_would_lose_port_if_not_OSError :
-    search ⟨false, false⟩ [5000] [(1, 5000)] = .noPort [] := by decide
+    search ⟨false, false, false⟩ [5000] [(1, 5000)] = .noPort [] := by decide
 
 /-- **exhaustion_421**: a PASV/EPSV in a session without listener, followed by EADDRINUSE for every port it
     tries (any number `n ≥ |queue|` of such answers is enough), ends with reply 421 and the end of the session,
@@ -270,13 +283,13 @@ theorem quiescent_pool_accounting (ports : List Port) (evs : List Event)
   have h2 := held_zero_of_allGone hg p
   omega
 
-/-- **quiescent_pool_full_partial**: after a history without cancellation inside a start-up, once every
-    session is gone the queue holds exactly the configured ports (with multiplicity) -/
-theorem quiescent_pool_full_partial (ports : List Port) (evs : List Event)
-    (h : NoCancelInStartup facts (initState ports) evs) (hg : allGone (run facts (initState ports) evs))
-    (p : Port) : inPool (run facts (initState ports) evs) p = ports.count p := by
+/-- **quiescent_pool_full** (full strength): after ANY history, once every session is gone the queue holds
+    exactly the configured ports (with multiplicity) -/
+theorem quiescent_pool_full (ports : List Port) (evs : List Event)
+    (hg : allGone (run facts (initState ports) evs)) (p : Port) :
+    inPool (run facts (initState ports) evs) p = ports.count p := by
   have h1 := quiescent_pool_accounting ports evs hg p
-  have h2 := lostIn_zero_of_noCancel h p
+  have h2 := lostIn_zero_of_cancelCaught fact_cancel_caught (initState ports) evs p
   omega
 
 example : run facts (initState [5000, 5001])
@@ -284,12 +297,13 @@ example : run facts (initState [5000, 5001])
      .finish 0, .finish 1]
     = { pool := [(0, 5001), (3, 5000)], sessions := [.gone, .gone] } := by decide
 
-/-- **the quiescent pool is not full on the pinned tree** (F8 again): all sessions gone, one port missing -/
-theorem quiescent_pool_not_full :
+/-- all sessions gone after a cut inside the start-up: the pool is full now, was one short on the old shape -/
+theorem quiescent_after_cut :
     allGone (run facts (initState [5000, 5001]) [.connect, .pasv 0, .finish 0]) ∧
-      inPool (run facts (initState [5000, 5001]) [.connect, .pasv 0, .finish 0]) 5000 = 0 := by
-  refine ⟨?_, by decide⟩
-  rw [port_lost_on_cancel_state]
+      inPool (run facts (initState [5000, 5001]) [.connect, .pasv 0, .finish 0]) 5000 = 1 ∧
+      inPool (run oldFacts (initState [5000, 5001]) [.connect, .pasv 0, .finish 0]) 5000 = 0 := by
+  refine ⟨?_, by decide, by decide⟩
+  rw [port_back_after_cancel]
   intro ph hph
   simpa using hph
 
